@@ -11,14 +11,17 @@ from cxxheaderparser import types as T, simple as S
 PID = "C01"
 TITLE = "Namespace-scope declarations are extracted faithfully"
 THEOREM_FILE = "Props/C01.v"
-MODELLED = ("modelled and proved: the declarator core (Parse/Declarator.v), the declarator loop of _parse_declarations for variables "
-            "(decl_list: one base type, ','-separated declarators, ';'), the specifier loop of _parse_type and validate (Parse/Specs.v, tied by calling the real "
-            "_parse_type on token lists), whole variable statements (var_stmt), function declarations up to the ')' (fn_decl), the enumerator list "
-            "(Parse/EnumList.v over _consume_value_until), and the collecting visitor as a fold over the block forest (Parse/Fold.v). "
-            "NOT modelled (decided by the AST-first search only): the dispatch of CxxParser.parse / _parse_declarations / _parse_decl between the "
-            "declaration forms, specifier collection and validation, functions and their tails (noexcept, throw, trailing return, bodies, "
-            "= delete), out-of-class method definitions, enums, using forms, templates headers, concepts, instantiations, deduction guides, "
-            "preprocessor directives")
+MODELLED = ("modelled and proved (each model a hand-written mirror tied by a differential run and an AST-digest pin): the declarator core "
+            "(Parse/Declarator.v), the specifier loop of _parse_type and validate (Specs), the way _parse_declarations / _parse_decl put one "
+            "statement together at namespace scope -- variables with initialisers and function declarators with exception specifications mixed in "
+            "one declarator list, a body or `= delete` behind the last function (DeclStmt, over VarStmt / Init / FnTail) --, typedef and field "
+            "statements (Members), parameter lists with defaults and packs (ParamsX), template parameter lists (Template), enumerator lists and enum "
+            "declarations (EnumList, EnumDecl), the three using statements (Using), qualified names (PQName), the namespace header (NsHeader), the "
+            "dispatch loop of parse (TopLoop) and the collecting visitor as a fold over the block forest (Fold). "
+            "NOT modelled (decided by the AST-first search only): operator and conversion-operator names, decltype, requires-clauses and concepts' "
+            "bodies beyond their token values, trailing return types, msvc calling conventions, abbreviated templates, deduction guides, explicit "
+            "instantiations, out-of-class method definitions, attributes other than on enumerators, preprocessor directives, and the location / "
+            "doxygen plumbing of the handlers")
 ASSUMPTIONS = c02.ASSUMPTIONS + ["search programs use the supported positions of ignored decorations (before a declaration; static_assert as a statement)"]
 
 KNOWN_CLASSIFIERS = {
@@ -1590,9 +1593,183 @@ def correspond_params_x(ctx, corr):
                                            what="parameter list `( %s`: %s" % (' '.join(toks), msg)))
 
 
+# ---------------------------------------------------------------------------
+# whole declaration statements mixing variables and function declarators: extracted decl_stmt (Parse/DeclStmt.v) vs
+# parse_string with a visitor that records variables and functions in the order they are delivered
+
+class _DeclRec(impl.SimpleCxxVisitor):
+    def __init__(self):
+        self.order = []
+
+    def on_variable(self, state, v):
+        self.order.append(('v', v))
+        super().on_variable(state, v)
+
+    def on_function(self, state, f):
+        self.order.append(('f', f))
+        super().on_function(state, f)
+
+
+def real_decl_stmt(text):
+    v = _DeclRec()
+    try:
+        impl.P.CxxParser("<str>", text, v, None).parse()
+    except (impl.CxxParseError, AssertionError, RecursionError):
+        return ('err',)
+    ns = v.data.namespace
+    if ns.typedefs or ns.classes or ns.using_alias or ns.enums or ns.forward_decls or ns.method_impls or ns.namespaces or ns.using or ns.using_ns:
+        return ('other',)
+    if len(v.order) != len(ns.variables) + len(ns.functions) or not v.order:
+        return ('other',)       # (an input without any declaration -- `;` -- never reaches _parse_declarations)
+    val = lambda x: None if x is None else tuple(t.value for t in x.tokens)
+    out, flags = [], None
+    for kind, o in v.order:
+        if o.template or len(o.name.segments) != 1 or not isinstance(o.name.segments[0], T.NameSpecifier) or o.name.segments[0].specialization:
+            return ('other',)
+        f = (o.constexpr, o.extern, o.inline, o.static)
+        if flags is not None and f != flags:
+            return ('other',)
+        flags = f
+        try:
+            if kind == 'v':
+                out.append(('var', o.name.segments[0].name, decl.from_real(o.type), val(o.value)))
+            else:
+                if o.has_trailing_return or o.msvc_convention or o.operator or o.raw_requires:
+                    return ('other',)
+                ps = []
+                for q in o.parameters:
+                    if q.default is not None or q.param_pack:
+                        return ('other',)
+                    ps.append((decl.from_real(q.type), q.name))
+                out.append(('fn', o.name.segments[0].name, ('F', decl.from_real(o.return_type), tuple(ps), o.vararg),
+                            val(o.throw), val(o.noexcept), o.has_body, o.deleted))
+        except decl.Unrepresentable:
+            return ('other',)
+    return ('ok', flags, out)
+
+
+def gen_mixed_stmt(rng):
+    """`spec* T d1, ..., dn <end>`: every d a variable declarator with an optional initialiser or a function declarator with
+    an optional exception specification; <end> is ';' or, behind a last function, a body / `= delete ;`"""
+    base = ('B', rng.choice(['Foo', 'Bar', 'T']), False, False)
+    pre = [rng.choice(['constexpr', 'extern', 'inline', 'static', 'const', 'volatile']) for _ in range(rng.choice([0, 0, 1, 2]))]
+    toks = pre + [base[1]]
+    if rng.random() < 0.15:
+        toks.append(rng.choice(['const', 'volatile', 'static']))
+    n = rng.choice([1, 2, 2, 3, 4])
+    last_fn = False
+    for i in range(n):
+        if i:
+            toks.append(',')
+        if rng.random() < 0.45:
+            while True:
+                rt = rebase(decl.rand_type(rng, rng.choice([0, 0, 1, 2, 3])), base)
+                if decl.kind(rt) in 'BR' and rt[0] != 'F':
+                    ps = []
+                    for j in range(rng.choice([0, 1, 1, 2])):
+                        while True:
+                            q = decl.rand_type(rng, rng.choice([0, 1, 2]))
+                            if decl.var_ok(q):
+                                break
+                        ps.append((q, rng.choice([None, 'a%d' % j])))
+                    t = ('F', rt, tuple(ps), rng.random() < 0.15)
+                    if decl.legal(t):
+                        break
+            toks += decl.print_layers(decl.layers(t)[1], ['f%d' % i]) + list(rng.choice(TAIL_SPECS))
+            last_fn = True
+        else:
+            while True:
+                t = rebase(decl.rand_type(rng, rng.choice([0, 1, 2, 4])), base)
+                if decl.legal(t) and decl.var_ok(t):
+                    break
+            toks += decl.print_layers(decl.layers(t)[1], ['v%d' % i])
+            if rng.random() < 0.1:
+                # `int (x)` / `int (x)[2]`: a parenthesis that is not a declarator group is re-injected once
+                k = len(toks) - 1
+                while toks[k] != 'v%d' % i:
+                    k -= 1
+                if k == len(toks) - 1 or toks[k + 1] not in ('(',):
+                    toks[k:k + 1] = ['(', 'v%d' % i, ')']
+            init = rng.choice(INITS)
+            if init:
+                toks += init
+            last_fn = False
+    r = rng.random()
+    if last_fn and r < 0.3:
+        toks += list(rng.choice(BODIES))
+    elif last_fn and r < 0.45:
+        toks += ['=', 'delete', ';']
+    else:
+        toks.append(';')
+    return toks, n
+
+
+def correspond_decl_stmts(ctx, corr):
+    rng = ctx.rng
+    cases = []
+    for _ in range(ctx.scale(1200, 24000)):
+        toks, n = gen_mixed_stmt(rng)
+        cases.append((toks, n))
+        if rng.random() < 0.35:
+            mt = c02.mutate(rng, toks)
+            cases.append((mt, mt.count(',') + 1))
+    lines, nms = [], []
+    for toks, n in cases:
+        names = decl.Names()
+        lines.append([106, n] + decl.enc_tokens(toks, names))
+        nms.append(names)
+    outs = run_driver(lines)
+    for (toks, n), o, names in zip(cases, outs, nms):
+        corr.cases += 1
+        if o[0] == 0:
+            rest, k = o[1], o[2]
+            fl = [bool(x) for x in o[3:12]]
+            i = 12
+
+            def opt(i):
+                if o[i] == 0:
+                    return None, i + 1
+                cnt = o[i + 1]
+                vals = tuple(names.rev[o[i + 2 + 2 * q + 1]] if o[i + 2 + 2 * q + 1] else impl.TT[o[i + 2 + 2 * q]] for q in range(cnt))
+                return vals, i + 2 + 2 * cnt
+            items = []
+            for _ in range(k):
+                kind, nm, ln = o[i], names.rev.get(o[i + 1], '?'), o[i + 2]
+                t, _j = decl.dec_type(o, i + 3, names)
+                i = i + 3 + ln
+                if kind == 0:
+                    val, i = opt(i)
+                    items.append(('var', nm, t, val))
+                else:
+                    th, i = opt(i)
+                    ne, i = opt(i)
+                    items.append(('fn', nm, t, th, ne, bool(o[i]), bool(o[i + 1])))
+                    i += 2
+            m = ('ok', (fl[2], fl[3], fl[4], fl[5]), items, rest)
+        else:
+            m = ('err', o[1])
+        r = real_decl_stmt(' '.join(toks))
+        key = "declstmt:" + (m[0] if m[0] == 'ok' else 'err%d' % m[1]) + "/" + r[0]
+        corr.dist[key] = corr.dist.get(key, 0) + 1
+        msg = None
+        if m[0] == 'ok' and m[3] == 0:
+            if r[0] == 'err':
+                msg = "model decodes the statement but the implementation rejects it"
+            elif r[0] == 'ok' and (r[1], r[2]) != (m[1], m[2]):
+                msg = "model %s %s; implementation %s %s" % (m[1], m[2], r[1], r[2])
+        elif m[0] == 'err' and m[1] in (1, 2, 3) and r[0] == 'ok':
+            msg = "model rejects (code %d) but the implementation reports %s" % (m[1], r[2])
+        elif m[0] == 'err' and m[1] == 9:
+            msg = "model ran out of fuel"
+        if msg:
+            corr.disagreements.append(dict(case=dict(kind='corr-declstmt', tokens=toks, n=n), model=str(m)[:400], impl=str(r)[:400],
+                                           what="declaration statement `%s`: %s" % (' '.join(toks), msg)))
+
+
 def correspond(ctx):
     corr = Corr()
     rng = ctx.rng
+    correspond_decl_stmts(ctx, corr)
     correspond_params_x(ctx, corr)
     correspond_template_stmts(ctx, corr)
     correspond_concepts(ctx, corr)
@@ -1848,15 +2025,19 @@ def replay(ctx, case):
     return []
 
 
-LEVEL_TEXT = ("PARTIAL. Proved in Coq, for inputs of any size: a variable statement `T d1, d2, ..., dn;` yields exactly one entry per declarator, "
-              "in source order, each with its own type built on the shared base type and its own name (one_entry_per_declarator, over the "
-              "declarator round trip of C02, any nesting depth); a function declaration reports exactly its return type, name, parameters and vararg "
-              "flag (function_declaration_decodes); and the collecting visitor places every callback's payload in the scope in "
-              "which it was written, in source order, nothing lost and nothing added, for any nesting and re-opening of namespaces and extern "
-              "blocks (items_land_where_written over the fold model of SimpleCxxVisitor). Tie: extracted declarator-loop model vs parse_string "
-              "on valid and mutated statements (here), recorded real callback streams folded by the model (C12). Everything else in the "
-              "statement -- the other declaration forms, specifiers, parameters, defaults, template headers, flags -- is decided by the AST-first "
-              "search, which compares whole results with independently assembled expectations and checks the published field types.")
+LEVEL_TEXT = ("PARTIAL. Proved in Coq, for inputs of any size: a declaration statement `spec* T spec* d1, ..., dn <end>` whose declarators are "
+              "variables (any legal object type, optional `= expr` / brace initialiser) and function declarators (any legal return type and "
+              "parameter list, optional throw / noexcept) in any mixture yields exactly one entry per declarator, in source order, each of its own "
+              "kind, with the flags and base type of the statement, its own value tokens, the body skipped exactly "
+              "(declaration_statement_decodes, declarator_kinds_follow_the_source, over the declarator round trip of C02); the same for typedef "
+              "statements, parameter lists with defaults, template parameter lists, enumerator lists, enum declarations and the using statements; "
+              "the specifier flags are the memberships of the keywords written, in any order; and the collecting visitor places every payload in "
+              "the scope in which it was written, in source order, for any nesting and re-opening of namespaces and extern blocks "
+              "(items_land_where_written). Tie: every model is extracted and run beside parse_string / the real method on valid and mutated token "
+              "lists, and the mirrored functions are AST-digest pinned. What is not modelled (operators, decltype, requires, trailing returns, "
+              "calling conventions, deduction guides, instantiations, method definitions outside classes, attributes, directives) is decided by "
+              "the AST-first search, which compares whole results with independently assembled expectations and checks the published field types.")
 LEVEL_NOTE = ("Trusted: Coq kernel, extraction, driver, harness codecs, the generator's expectation builder (hand-written from the documented "
-              "dataclasses). The parser's dispatch code is not modelled: for it this check is a search, not a proof.")
-TECHNIQUE = "Coq proofs for the declarator loop and the scope-placement fold (unbounded) + differential run + AST-first whole-result search with independent expectations"
+              "dataclasses). The hand-written models mirror the Python code; their agreement is checked by the differential runs, not proved. "
+              "For the unmodelled forms this check is a search, not a proof.")
+TECHNIQUE = "Coq proofs for whole declaration statements (specifiers, mixed variable / function declarator lists, initialisers, tails), the other modelled statement forms and the scope-placement fold (unbounded) + differential runs + AST-digest pins + AST-first whole-result search with independent expectations"
